@@ -215,8 +215,18 @@ fn oracle(c: &Case, st: &mut Stats) -> Result<(), String> {
     };
     if c.plant_symlink && c.outarg % 6 != 3 {
         std::fs::create_dir_all(&outdir).ok();
-        // a link that already exists in the output directory and leads outside of it
-        let _ = std::os::unix::fs::symlink(&canary, outdir.join("lnk"));
+        // a link that already exists in the output directory and leads outside of it: to the canary directory, or
+        // (every other case) to a sibling whose name merely starts like the output directory's name
+        if c.seed % 2 == 0 {
+            let _ = std::os::unix::fs::symlink(&canary, outdir.join("lnk"));
+        } else {
+            let mut sib = outdir.clone().into_os_string();
+            sib.push(".old");
+            let sib = PathBuf::from(sib);
+            std::fs::create_dir_all(&sib).map_err(|e| format!("HARNESS: {e}"))?;
+            std::fs::write(sib.join("keep"), b"sibling content that must survive").ok();
+            let _ = std::os::unix::fs::symlink(&sib, outdir.join("lnk"));
+        }
     }
     // one case in three: the output directory already holds a longer, stale file where a benign member goes
     if c.seed % 3 == 0 && c.outarg % 6 != 3 {
